@@ -74,12 +74,12 @@ func (h *c09Hist) adapterCheck(root string, cutInfo map[string]any, matched []in
 // batch (documented cleanup-before-retry), so it is not asserted here.
 
 type c09DCut struct {
-	fs           *vfs.MemFS
-	pct          int
-	ackedBefore  bool
-	begunAfter   bool
-	event        string
-	lossy        bool
+	fs          *vfs.MemFS
+	pct         int
+	ackedBefore bool
+	begunAfter  bool
+	event       string
+	lossy       bool
 }
 
 func c09DiscardScenario(r *verifkit.Run, idx int, stats *c09AuditStats) {
@@ -369,6 +369,7 @@ func TestVerifC09KillChild(t *testing.T) {
 		fmt.Fprintf(j, "OPENFAIL %v\n", err)
 		os.Exit(3)
 	}
+	s.configure(p)
 	fmt.Fprintf(j, "READY\n")
 	for i, op := range p.issuers[0] {
 		fmt.Fprintf(j, "B %d\n", i)
